@@ -390,7 +390,6 @@ func main() {
 	if err := hookMappingInRepo(); err != nil {
 		ev.Unbound(err.Error())
 	}
-	defer os.RemoveAll(scratchRoot)
 	scs := scenarios()
 	names := make([]string, len(scs))
 	var jobs []sched.Job
